@@ -28,6 +28,8 @@ func main() {
 	switch cmd {
 	case "core-replay":
 		coreReplay(args)
+	case "hb-replay":
+		hbReplay(args)
 	case "approval-replay":
 		approvalReplay(args)
 	case "tree-replay":
